@@ -167,7 +167,8 @@ Next == \/ \E t \in Targets, v \in 1 .. 3, pl \in 1 .. 2, rt \in {"lib", "cli", 
               Create(t, v, pl, rt, al /\ v = 1)
         \/ \E t \in Targets, v \in 1 .. 3 : CreateFail(t, v)
         \/ \E k \in {"add", "delete", "grow", "shrink", "rewrite", "rewritekeep"}, f \in Files : Mutate(k, f)
-        \/ \E k \in {"recheck", "magnet", "edit"}, t \in Targets : Use(k, t)
+        \* ("magnetv": the same through the command line with -v, which configures logging for the rest of the process)
+        \/ \E k \in {"recheck", "magnet", "magnetv", "edit"}, t \in Targets : Use(k, t)
         \/ \E t \in Targets, se \in {"own", "empty", "part", "decoy"} : Rebuild(t, se)
 Spec == Init /\ [][Next]_vars
 
